@@ -327,6 +327,13 @@ pub fn frames_for(cookies: &HashMap<crate::model::FlowKey, u32>, thorough: bool)
         v.push((format!("foreign-dst-echo-{}", v6), vec![], g.icmp_echo(1, 1, b"x")));
         v.push((format!("foreign-dst-udp-{}", v6), vec![], g.udp(b"GET / HTTP/1.1\r\n\r\n")));
     }
+    // replies of every size class: echo requests whose reply reaches and exceeds a 1500-byte MTU
+    for n in [1400usize, 1471, 1472, 1473, 1480, 1500, 2000, 4000, 9000] {
+        for v6 in [false, true] {
+            let data: Vec<u8> = (0..n).map(|k| k as u8).collect();
+            v.push((format!("echo-{}-bytes-{}", n, v6), vec![], flow(v6, 1, 1).icmp_echo(7, 9, &data)));
+        }
+    }
     // ND-NS: foreign target, non-zero code
     for (n, tgt, code) in [("ns-foreign", Ip::parse("2001:db8::77"), 0u8), ("ns-code1", srv6(), 1), ("ns-ok", srv6(), 0)] {
         v.push((n.to_string(), vec![], eth(&crate::driver::MAC_SRV, &MAC_CLI, ET_IP6, &nd_ns(&cli6(), &srv6(), &tgt, &slla(&MAC_CLI), code))));
